@@ -28,6 +28,7 @@ import Spade.Examples
 import Spade.Proofs.InsertInv
 import Spade.Proofs.LinkInv
 import Spade.Proofs.CcwInv
+import Spade.Proofs.WInv
 namespace Spade
 
 /-- the empty triangulation as a model state -/
@@ -180,6 +181,26 @@ theorem C02_ccw_invariant_on_model (ops : List (Pt × Nat × Nat)) (t : St)
     t.LInv ∧ ∀ e, e < t.nE → t.fc e ≠ 0 → 0 < orient (t.A e) (t.B e) (t.C e) := by
   have hc := (St.CInv.of_degenerate (St.LInv.of_no_edges emptyModel rfl rfl rfl rfl) rfl).insertAllM ops side h
   exact ⟨hc.links, fun e he hf => hc.ccw e he hf⟩
+
+/-! ### the full invariant: no geometric hypothesis left for interior insertions
+
+`St.WInv` = `CInv` + `FaceTriples` (every inner face is anchored at one of its own half-edges) +
+`VBound` (every `out_edge` names an existing half-edge).  These are the hypotheses of the locate
+soundness theorem, so in every state with `WInv` the answer of `locateM` is geometrically true
+(`St.WInv.locate_sound`), and the side condition of an insertion shrinks to `insertSideOK0`: only
+the hull-extending and chain steps carry one. -/
+
+/-- one insertion keeps the full invariant under the hull / chain side conditions only -/
+theorem C02_full_invariant_insert (s t : St) (p : Pt) (d hint v : Nat) (hw : s.WInv)
+    (side : s.insertSideOK0 p d hint = true) (h : s.insertM p d hint = some (t, v)) : t.WInv :=
+  hw.insertM p d hint v side h
+
+/-- **every insertion history of the model from the empty triangulation**: consistent links,
+counter-clockwise inner faces, face anchors on their faces, vertex anchors in range -/
+theorem C02_full_invariant_on_model (ops : List (Pt × Nat × Nat)) (t : St)
+    (side : emptyModel.insertAllSideOK0 ops = true)
+    (h : emptyModel.insertAllM ops = some t) : t.WInv :=
+  (St.WInv.of_no_edges emptyModel rfl rfl rfl rfl (by intro v e h; simp [emptyModel] at h)).insertAllM ops side h
 
 /-- non-vacuity: the side conditions hold along a concrete history that extends the hull, splits
 edges and inserts into faces -/
